@@ -94,7 +94,8 @@ def rule_implicit_wiring(rep: Report, repo: Repo):
     ok = len(low) == 1
     if ok:
         lam = [n for n in ast.walk(low[0]) if isinstance(n, ast.Lambda)]
-        ok = len(lam) == 1 and norm(lam[0].body) == "aslinearoperator(original[index])"
+        ok = len(lam) == 1 and lam[0].args.vararg is not None and not lam[0].args.args and \
+            norm(lam[0].body) == f"aslinearoperator({low[0].args.args[0].arg}[{lam[0].args.vararg.arg}])"
     rep.check(ok, RULE, "algorithm_parsing::series_computation linear-operator view wraps the same element of the original series",
               "", loc2(low[0] if low else sc))
     d = [x for x in nested_defs(sc) if x.name == "del_"]
@@ -106,7 +107,7 @@ def rule_implicit_wiring(rep: Report, repo: Repo):
     if ok:
         st = loops[0].body[0]
         ok = isinstance(st, ast.Assign) and norm(st.targets[0]) == "which[product.name]" and isinstance(st.value, ast.Call) \
-            and call_name(st.value) == "cauchy_dot_product" and norm(st.value.args[0]) == "*(which[term] for term in product.terms)" \
+            and call_name(st.value) == "cauchy_dot_product" and rtext(st.value.args[0], {}) == "*(which[_v0] for _v0 in product.terms)" \
             and {k.arg: norm(k.value) for k in st.value.keywords} == {"operator": "operator", "hermitian": "product.hermitian"}
     rep.check(ok, RULE, "algorithm_parsing::series_computation products are built identically for plain and linear-operator series",
               "same factor names, operator and hermitian flag", loc2(loops[0] if loops else sc))
@@ -114,7 +115,7 @@ def rule_implicit_wiring(rep: Report, repo: Repo):
     ok = len(reg) == 1 and norm(reg[0].value) == "linear_operator_wrapped(series[term.name])"
     rep.check(ok, RULE, "algorithm_parsing::series_computation every computed series gets its linear-operator view", "", loc2(reg[0] if reg else sc))
     ini = [n for n in own_nodes(sc) if isinstance(n, ast.Assign) and norm(n.targets[0]) == "linear_operator_series"]
-    ok = len(ini) == 1 and norm(ini[0].value) == "{name: linear_operator_wrapped(series) for name, series in series.items()}"
+    ok = len(ini) == 1 and rtext(ini[0].value, {}) == "{_v0: linear_operator_wrapped(_v1) for _v0, _v1 in series.items()}"
     rep.check(ok, RULE, "algorithm_parsing::series_computation every input series gets its linear-operator view", "", loc2(ini[0] if ini else sc))
     es = [n for n in own_nodes(sc) if isinstance(n, ast.Assign) and norm(n.targets[0]) == "eval_scope" and isinstance(n.value, ast.Dict)]
     if len(es) != 1:
